@@ -21,78 +21,11 @@ values are the codec cluster's model.
 namespace J5V.Schema.Reader
 open J5V.Go J5V.Schema
 
-/-! ## ClientProperties -/
+/-! ## ClientProperties
 
-/-- `ObjectField.Schema()`: `s.Ref.To.(*ObjectSchema)` -/
-def objectProps (reg : Reg) (r : Ref) : Outcome (List RProp) :=
-  match reg.find r.pkg r.schema with
-  | some e =>
-    match e.to with
-    | some (.object _ _ _ _ ps) => .ok ps
-    | some _ => .panic "interface conversion: RootSchema is not *ObjectSchema"
-    | none => .panic "interface conversion: RootSchema is nil, not *ObjectSchema"
-  | none => .panic "unregistered reference"
-
-def onStack (fl : List Ref) (r : Ref) : Bool := fl.contains r
-
-/-- registered names not on the flattening stack -/
-def unflattened (reg : Reg) (fl : List Ref) : Nat :=
-  (reg.filter fun e => !onStack fl ⟨e.pkg, e.key⟩).length
-
-theorem unflattened_lt (reg : Reg) (fl : List Ref) (r : Ref) (e : REntry)
-    (hf : reg.find r.pkg r.schema = some e) (hn : onStack fl r = false) :
-    unflattened reg (fl ++ [r]) < unflattened reg fl := by
-  unfold unflattened
-  have hpk : e.pkg = r.pkg ∧ e.key = r.schema := by
-    have h := hf
-    unfold Reg.find at h
-    simpa using List.find?_some h
-  obtain ⟨hp, hk⟩ := hpk
-  have hmem : e ∈ reg := by
-    unfold Reg.find at hf
-    exact List.mem_of_find?_eq_some hf
-  have he : (⟨e.pkg, e.key⟩ : Ref) = r := by cases r; simp_all
-  apply filter_length_lt _ _ _ _ e hmem
-  · simp [he, hn]
-  · simp [onStack, he]
-  · intro x hx
-    simp only [onStack, List.contains_append, Bool.not_or, Bool.and_eq_true, Bool.not_eq_eq_eq_not,
-      Bool.not_true] at hx ⊢
-    exact hx.1
-
-/-- `nestedClone`: the child's path is appended to the flattened field's path -/
-def nestedClone (inParent : List Int) (p : RProp) : RProp := { p with path := inParent ++ p.path }
-
-/-- `clientProperties(flattening)` over the properties of the object on top of the stack `fl` -/
-def clientProps (reg : Reg) (fl : List Ref) (props : List RProp) : Outcome (List RProp) :=
-  match props with
-  | [] => .ok []
-  | prop :: rest =>
-    let here : Outcome (List RProp) :=
-      match prop.schema with
-      | .object ref true =>
-        if hs : onStack fl ref then .ok [prop]
-        else
-          match hf : reg.find ref.pkg ref.schema with
-          | none => .panic "unregistered reference"
-          | some e =>
-            match e.to with
-            | some (.object _ _ _ _ ps) =>
-              (clientProps reg (fl ++ [ref]) ps).map fun cs => cs.map (nestedClone prop.path)
-            | some _ => .panic "interface conversion: RootSchema is not *ObjectSchema"
-            | none => .panic "interface conversion: RootSchema is nil, not *ObjectSchema"
-      | _ => .ok [prop]
-    here.bind fun a => (clientProps reg fl rest).map fun b => a ++ b
-termination_by (unflattened reg fl, props.length)
-decreasing_by
-  · apply Prod.Lex.left
-    exact unflattened_lt reg fl ref e hf (by simpa using hs)
-  · apply Prod.Lex.right
-    simp
-
-/-- `ObjectSchema.ClientProperties()` of the object registered under `self` -/
-def clientProperties (reg : Reg) (self : Ref) : Outcome (List RProp) :=
-  (objectProps reg self).bind fun ps => clientProps reg [self] ps
+`objectProps`, `clientProps`, `clientProperties` (the model of `ObjectSchema.ClientProperties`) live
+in `Reader.lean`: since the reader checks the client property names of every object it builds,
+they are part of the reader model. -/
 
 /-! ## newPropSet and the field factories -/
 
